@@ -135,7 +135,7 @@ func unifyNums2And[T any](a, b vals.Num,
 	fInt func(a, b int) T, fBigInt func(a, b *big.Int) T,
 	fBigRat func(a, b *big.Rat) T, fFloat64 func(a, b float64) T) T {
 
-	a, b = vals.UnifyNums2(a, b, 0)
+	a, b = vals.UnifyNums2ForCmp(a, b)
 	switch a := a.(type) {
 	case int:
 		return fInt(a, b.(int))
